@@ -211,3 +211,33 @@ func SpliceNegative(w *World, t *tape.Tape) NegSnippet {
 	w.RawFiles["p/zz_neg.go"] = s.Text
 	return s
 }
+
+// undeclared types at every position of a derive call's argument type: the
+// user file does not type-check, goderive must say so (or cope), never emit
+// "invalid type" into derived.gen.go.
+func init() {
+	positions := []string{"negMissing", "[]negMissing", "map[negMissing]int", "map[string]negMissing", "*negMissing", "[2]negMissing",
+		"map[negMissing]map[string]int", "map[string]map[negMissing]bool", "[]map[negMissing]string", "struct{ A negMissing }", "func(negMissing) int", "chan negMissing", "map[[2]negMissing]int", "*map[negMissing]int"}
+	for _, pos := range positions {
+		for _, pl := range []string{"equal", "compare", "hash", "clone", "deepcopy", "keys", "sort", "gostring"} {
+			name := PluginPrefix[pl] + "Neg"
+			var body string
+			switch pl {
+			case "equal", "compare":
+				body = "func negUse(a, b " + pos + ") { _ = " + name + "(a, b) }"
+			case "deepcopy":
+				body = "func negUse(a, b *" + pos + ") { " + name + "(a, b) }"
+			case "keys":
+				if len(pos) < 4 || pos[:4] != "map[" {
+					continue
+				}
+				body = "func negUse(a " + pos + ") { _ = " + name + "(a) }"
+			case "sort":
+				body = "func negUse(a []" + pos + ") { _ = " + name + "(a) }"
+			default:
+				body = "func negUse(a " + pos + ") { _ = " + name + "(a) }"
+			}
+			NegSnippets = append(NegSnippets, NegSnippet{Kind: "broken", Plugin: pl, Call: name, Type: pos, Text: "package p\n\n" + body + "\n"})
+		}
+	}
+}
